@@ -20,8 +20,8 @@ def _is_int0(n: ast.AST) -> bool:
 
 class _Spelling(ast.NodeTransformer):
     """spellings that cannot change what the code does, brought to one form before any translator looks:
-    `range(0, n)` -> `range(n)`, `enumerate(x, 0)` / `enumerate(x, start=0)` -> `enumerate(x)`, and an annotated
-    assignment `x: T = e` -> `x = e`"""
+    `range(0, n)` -> `range(n)`, `enumerate(x, 0)` / `enumerate(x, start=0)` -> `enumerate(x)`, `np.array(x, copy=True)` ->
+    `np.array(x)` (numpy's default, not spelled out), and an annotated assignment `x: T = e` -> `x = e`"""
 
     def visit_Call(self, node):
         self.generic_visit(node)
@@ -34,6 +34,9 @@ class _Spelling(ast.NodeTransformer):
             elif len(node.args) == 1 and len(node.keywords) == 1 and node.keywords[0].arg == "start" \
                     and _is_int0(node.keywords[0].value):
                 node.keywords = []
+        if ast.unparse(node.func) in ("np.array", "numpy.array"):
+            node.keywords = [k for k in node.keywords if not (k.arg == "copy" and isinstance(k.value, ast.Constant)
+                                                             and k.value.value is True)]
         return node
 
     def visit_AnnAssign(self, node):
@@ -41,6 +44,11 @@ class _Spelling(ast.NodeTransformer):
         if node.value is not None and node.simple:
             return ast.copy_location(ast.Assign(targets=[node.target], value=node.value), node)
         return node
+
+
+def spelling(tree: ast.AST) -> ast.AST:
+    """the same normalisation for a text a translator compares the source with"""
+    return ast.fix_missing_locations(_Spelling().visit(tree))
 
 
 def parse(relpath: str) -> ast.Module:
